@@ -3,7 +3,8 @@ PROP = dict(
     legs=[
         dict(driver="footprint", quick=8, thorough=120, shard=8, noshrink=True,
              monitors=["both_runs_reach_quiescence", "reactor_tracks_nothing_and_all_tokens_free", "no_body_or_temp_file_left",
-                       "limiter_table_within_bound", "fds_and_goroutines_do_not_grow_from_N_to_4N"]),
+                       "limiter_table_within_bound", "fds_and_goroutines_do_not_grow_from_N_to_4N",
+                       "descriptors_on_files_do_not_grow_from_N_to_4N", "log_directory_holds_at_most_one_descriptor"]),
         # the real BucketManager under a stream of Wait / failure / success reports and cleanups (driver shared with C13;
         # only the table-bound monitor belongs to this property)
         dict(driver="mgr", binary="zrate", corpus_from="C13", quick=60, thorough=800, shard=30, only_monitors=[0],
@@ -15,12 +16,18 @@ PROP = dict(
     ],
     partial="Goroutine and file-descriptor counts are facts of the Go runtime and the OS that no executable model can exhibit: they are "
             "measured (N against 4N seeds, separate processes, same configuration), not proved; the comparison tolerates a few idle "
-            "keep-alive connections either way. What IS proved, for any number of seeds: the reactor is empty and all tokens are free in "
+            "keep-alive connections either way (descriptors on files: one). In half of the runs with a small heap the collector is off, so "
+            "that a descriptor whose Close() was lost is not closed behind the scenes by a finalizer; in the other runs such a leak shows only "
+            "as far as the collector has not run since. What IS proved, for any number of seeds: the reactor is empty and all tokens are free in "
             "every stuck state, at most W seeds are ever in flight, no node holds a body after post-processing, archive() closes every body "
-            "it opens, the limiter table stays within its bound.",
+            "it opens, the limiter table stays within its bound, the rotated log file holds at most one descriptor after any number of rotations.",
     assumptions=["host names are non-empty and fewer than 2^31-1 bucket requests are made (hypotheses of the limiter-table bound, shown necessary in Rate/ManagerProofs.v)",
-                 "idle footprint is sampled 300 ms after quiescence"],
+                 "idle footprint is sampled 300 ms after quiescence",
+                 "descriptors are classified by the target of their /proc/self/fd link (log directory of the job, WARC files, WARC temp directory, databases, sockets, pipes, other)"],
     level_text="Theorems for every number of queue rows, worker count, interleaving and site behaviour (reactor idle at quiescence, in-flight "
-               "bounded, bodies closed, limiter table bounded) + a measured comparison of the quiescent footprint after N and after 4N seeds "
-               "(large spooled bodies, failures, redirects, up to 40 hosts so that the limiter table evicts) on the real pipeline.",
+               "bounded, bodies closed, limiter table bounded) and for every sequence of log rotations, writes and closes (the rotated log file holds "
+               "at most one descriptor) + a measured comparison of the quiescent footprint after N and after 4N seeds "
+               "(large spooled bodies, failures, redirects, up to 40 hosts so that the limiter table evicts; in half of the cases with file logging through "
+               "the real log.Start() and --log-file-rotation of 10-35 ms, so that the 4N run sees many more rotations; partly with the collector "
+               "off so that finalizers hide nothing; descriptors counted in total and by kind) on the real pipeline.",
 )
